@@ -228,6 +228,34 @@ def observe(kind, path, mode='r'):
     return ('ok', content), (('ok', mv) if mw == 'returns' else ('raises', type(mv).__name__))
 
 
+def followup(kind, path, content, sc):
+    """Append once to the array that survived (opened r+) and read it back through a fresh handle; None if correct."""
+    darr = import_darr()
+    dt = np.dtype(sc.get('dtype', DT.str))
+    tr = tuple(sc['trail'])
+    extra = payload.values('V1', 2, tr, dt)
+    try:
+        if kind == 'array':
+            a = darr.Array(path, accessmode='r+')
+            a.append(extra)
+            got = darr.Array(path)[:]
+            want = np.concatenate([np.asarray(content), extra]).astype(dt)
+            if not payload.same_bits(got, want):
+                return f'a fresh handle shows shape {got.shape} / other values than the surviving state followed by the new rows'
+        else:
+            ra = darr.RaggedArray(path, accessmode='r+')
+            ra.append(extra)
+            f = darr.RaggedArray(path)
+            got = [f[k] for k in range(len(f))]
+            want = list(content) + [extra]
+            if len(got) != len(want) or not all(payload.same_bits(np.asarray(g), np.asarray(w).astype(dt)) for g, w in zip(got, want)):
+                return f'a fresh handle shows {len(got)} subarrays of lengths {[len(g) for g in got]}, expected the surviving ' \
+                       f'{len(content)} followed by the new one (or values differ)'
+    except Exception as e:  # noqa: BLE001
+        return f'fails: {e!r:.120}'
+    return None
+
+
 def evaluate_scenario(sc_tier):
     sc, tier = sc_tier
     wd = fresh_dir('crash')
@@ -301,6 +329,15 @@ def _evaluate(sc, tier):
                 continue
             idx = legit_keys.index(ck)
             stats[f'opens_as_legit_{idx}' + tag] += 1
+            if mode == 'r+' and not sc['op'].startswith('meta-'):
+                # the state that survived the crash must be a NORMAL state: work that follows must land correctly
+                msg = followup(kind, 'snap.darr', legit[idx], sc)
+                stats['followup_appends'] += 1
+                if msg:
+                    stats['WRONG'] += 1
+                    V.append(viol('crash', sc['op'], f'{kind},start={sc["start"]}', 'an append after the crash returns wrong data',
+                                  f'{scname}: crash at {where}: the array opens as a legitimate state, but after one more append '
+                                  f'{msg}', snapshot_info=info, kind=skind))
             if mw == 'raises':
                 stats['metadata_raises' + tag] += 1
             else:
